@@ -543,7 +543,9 @@ def run_shard(spec):
                 pt = c["peers"][0].get("timers", {})
                 to = c["node"].get("cer_timeout", 4) if direction == "in" else \
                      (pt.get("cea_timeout") or c["node"].get("cea_timeout", 4))
-                for noise in (None, "DWR", "REQ", "DWA", "ANS", "DPR"):
+                # ignored traffic includes capabilities-exchange messages of the wrong direction
+                wrong = ("CEA2", "CEA5") if direction == "in" else ("CERk", "CERu")
+                for noise in (None, "DWR", "REQ", "DWA", "ANS", "DPR") + wrong:
                     for last in (to - 1, to, to + 1):
                         script = []
                         if to > 1:
